@@ -17,29 +17,29 @@ pub struct Rt { pub depth: Ghost<nat>, pub executed: Ghost<Set<int>>, pub hoiste
 // --- jasi: the frame mark of an iteration
 pub struct CondH { pub g: Ghost<int> }
 pub enum CondV { Bool(bool), Null, Other }
-pub struct Lp { pub has_frame: bool, pub mark: Ghost<Set<usize>>, pub resets: Ghost<nat>, pub bodies: Ghost<nat>, pub conds: Ghost<nat> }
+pub struct Lp { pub has_frame: bool, pub mark: Ghost<Set<usize>>, pub resets: Ghost<nat>, pub bodies: Ghost<nat>, pub conds: Ghost<nat>, pub resets_at_body_end: Ghost<nat> }
 impl Lp {
     // self.eval_expr(cond): the condition is evaluated once per round, before the body
     #[verifier::external_body]
     pub fn eval_cond(&mut self, c: &CondH) -> (r: Result<CondV, RtErr>)
-        ensures final(self).conds@ == old(self).conds@ + 1, final(self).has_frame == old(self).has_frame, final(self).mark@ == old(self).mark@, final(self).resets@ == old(self).resets@, final(self).bodies@ == old(self).bodies@ { unimplemented!() }
+        ensures final(self).conds@ == old(self).conds@ + 1, final(self).has_frame == old(self).has_frame, final(self).mark@ == old(self).mark@, final(self).resets@ == old(self).resets@, final(self).bodies@ == old(self).bodies@, final(self).resets_at_body_end@ == old(self).resets_at_body_end@ { unimplemented!() }
     #[verifier::external_body]
     pub fn has_frame_arena(&self) -> (r: bool) ensures r == self.has_frame { unimplemented!() }
     // self.frame.offset(): the mark of this iteration
     #[verifier::external_body]
     pub fn frame_offset(&mut self) -> (r: usize)
-        ensures final(self).mark@ == old(self).mark@.insert(r), final(self).has_frame == old(self).has_frame, final(self).resets@ == old(self).resets@, final(self).bodies@ == old(self).bodies@, final(self).conds@ == old(self).conds@ { unimplemented!() }
+        ensures final(self).mark@ == old(self).mark@.insert(r), final(self).has_frame == old(self).has_frame, final(self).resets@ == old(self).resets@, final(self).bodies@ == old(self).bodies@, final(self).conds@ == old(self).conds@, final(self).resets_at_body_end@ == old(self).resets_at_body_end@ { unimplemented!() }
     // self.exec_block_with_flow(body): the mark taken before it stays the mark of this iteration
     #[verifier::external_body]
     pub fn exec_body(&mut self, b: &BlockH) -> (r: Result<ExecFlow, RtErr>)
         requires old(self).conds@ == old(self).bodies@ + 1          // a body runs only after its round's condition was evaluated
-        ensures final(self).bodies@ == old(self).bodies@ + 1, final(self).mark@ == old(self).mark@, final(self).has_frame == old(self).has_frame, final(self).resets@ == old(self).resets@, final(self).conds@ == old(self).conds@ { unimplemented!() }
+        ensures final(self).bodies@ == old(self).bodies@ + 1, final(self).mark@ == old(self).mark@, final(self).has_frame == old(self).has_frame, final(self).resets@ == old(self).resets@, final(self).conds@ == old(self).conds@, final(self).resets_at_body_end@ == old(self).resets@ { unimplemented!() }
     // unsafe { self.frame.reset(offset) }: only ever back to a mark taken by THIS loop statement (all of them are at or above the frame
     // level the loop started at, so nothing allocated before the loop is reclaimed)
     #[verifier::external_body]
     pub fn frame_reset(&mut self, offset: usize)
         requires old(self).has_frame, old(self).mark@.contains(offset)
-        ensures final(self).mark@ == old(self).mark@, final(self).resets@ == old(self).resets@ + 1, final(self).has_frame == old(self).has_frame, final(self).bodies@ == old(self).bodies@, final(self).conds@ == old(self).conds@ { unimplemented!() }
+        ensures final(self).mark@ == old(self).mark@, final(self).resets@ == old(self).resets@ + 1, final(self).has_frame == old(self).has_frame, final(self).bodies@ == old(self).bodies@, final(self).conds@ == old(self).conds@, final(self).resets_at_body_end@ == old(self).resets_at_body_end@ { unimplemented!() }
 }
 pub struct FuncDef { pub body: BlockH }
 impl Rt {
@@ -131,7 +131,9 @@ UNIT = VUnit(
               requires=["old(me).conds@ == old(me).bodies@", "old(me).mark@ == Set::<usize>::empty()"],
               ensures=["res is Ok ==> (res->Ok_0 is Continue || res->Ok_0 is Return)",
                        "res is Ok ==> final(me).resets@ - old(me).resets@ <= final(me).bodies@ - old(me).bodies@",
-                       "!old(me).has_frame ==> final(me).resets@ == old(me).resets@"],
+                       "!old(me).has_frame ==> final(me).resets@ == old(me).resets@",
+                       # a value returned from inside the loop still lives in the frame of the round that produced it: no reset after that body
+                       "res is Ok && res->Ok_0 is Return ==> final(me).resets@ == final(me).resets_at_body_end@"],
               rewrites=[# the loop annotation (an insertion, not a change of code)
                         Rw("R0", r"loop \{", "loop\n invariant_except_break me.conds@ == me.bodies@,\n invariant me.has_frame == old(me).has_frame, me.bodies@ >= old(me).bodies@, me.resets@ - old(me).resets@ <= me.bodies@ - old(me).bodies@, !me.has_frame ==> me.resets@ == old(me).resets@,\n {", count=1, min_matches=1),
                         Rw("R9", r"self\.eval_expr\(cond\)\?", "me.eval_cond(cond)?", min_matches=1),
